@@ -190,6 +190,7 @@ static struct qb_ipcs_service *svc;
 
 static void check_accounting(void)
 {
+	PROP(closed_calls == 0, "a connection whose peer is alive and well-behaved is never torn down");
 	if (closed_calls) return;
 	PROP(!blocked_forever, "the server never waits for ever for a notification byte that is not coming");
 	PROP(c2s_bytes == rq_len, "after every step the client->server notification bytes equal the queued requests");
